@@ -56,6 +56,41 @@ example : tnSafeStrip {} true (TN ++ [104, 105]) = .ok (TN ++ [104, 105]) := by 
 example : tnSafeStrip {} false [91, 164] = .ok [91, 164] := by rfl
 example : tnSafeStrip { allowFreeTn := true } false (TN ++ [104, 105]) = .ok (TN ++ [104, 105]) := by rfl
 
+/-- The predicate and the cut agree on WHERE the tag is: the published title is either the submitted full title,
+or the submitted full title minus exactly the announcement tag at its very start — never anything else
+(in particular nothing is cut from a title that has blanks or other bytes in front of the tag). -/
+theorem title_submitted_or_minus_leading_tag (q : Req) :
+    pTitle q = fullTitle q.cls q.title ∨ fullTitle q.cls q.title = TN ++ pTitle q := by
+  unfold pTitle
+  simp only
+  cases hk : tnKeeps q.cfg q.role (fullTitle q.cls q.title)
+  · right
+    have hp : hasPrefix (fullTitle q.cls q.title) TN = true := by
+      simp only [tnKeeps, Bool.or_eq_false_iff, Bool.not_eq_false'] at hk
+      exact hk.2
+    obtain ⟨r, hr⟩ := (hasPrefix_iff _ _).mp hp
+    simp [hr]
+  · left; rfl
+
+/-- a blank in front of the tag: nothing is cut ... -/
+example : postTitle {} false [] ([32] ++ TN ++ [32, 120]) = .ok ([32] ++ TN ++ [32, 120]) := by rfl
+/-- ... whereas "look behind leading blanks, cut from the start" leaves the tail of the tag (`"] x"`). -/
+theorem trimleft_predicate_mangles :
+    tnSafeStripWith {} isTnAnnounceTrimLeft false ([32] ++ TN ++ [32, 120]) = .ok [93, 32, 120] := by rfl
+
+/-- the zone every date and time of a post is rendered in is the configured one, whatever was in effect before
+(`InitConfig` always reloads it) ... -/
+theorem zone_follows_config (s : TZ) (z : String) : (initConfigTZ s (some z)).zone = z := rfl
+
+theorem zone_kept_without_config (s : TZ) (h : s.zone = s.location) : (initConfigTZ s none).zone = s.zone := by
+  simp [initConfigTZ, initConfigTZWith, setTimeLocation, h]
+
+/-- ... whereas with "nothing to do when the name is unchanged" the start-up path never loads a configured zone:
+`config()` has already stored the name, so the zone of package initialisation stays in effect. -/
+theorem lazy_setTimeLocation_ignores_config (s : TZ) (z : String) :
+    (initConfigTZWith setTimeLocationLazy s (some z)).zone = s.zone := by
+  simp [initConfigTZWith, setTimeLocationLazy]
+
 /-- `"[class] title"`: the class prefix rule of doPostArticleFullTitle. -/
 theorem fullTitle_spec (cls title : Bytes) :
     fullTitle cls title = if cls = [] then title else [91] ++ cls ++ [93, 32] ++ title := by
